@@ -1463,3 +1463,24 @@ Proof.
     + eapply RB_root; eassumption.
     + eapply RB_step; eassumption.
 Qed.
+
+(** * a witness for the observation on [unroll_arg_requires]: with [a.requires(b)] and [b.requires_if("v", y)] the line
+    `--aa v --bb w` is rejected with MissingRequiredArgument(y) although the argument that carries the conditional rule
+    ([b]) has the value "w": the rule is tested against the occurrence of the root [a].  The same line with `--aa z` is
+    accepted.  (Replayed on the crate: same two results.) *)
+Definition quirk_cmd : cmd :=
+  let a := (arg_new [97]) <| a_long := Some [97; 97] |> <| a_requires := [(PIsPresent, [98])] |> in
+  let b := (arg_new [98]) <| a_long := Some [98; 98] |> <| a_requires := [(PEquals [118], [121])] |> in
+  let y := (arg_new [121]) <| a_long := Some [121; 121] |> in
+  (cmd_new [112]) <| c_args := [a; b; y] |>.
+
+Lemma requires_if_chain_witness :
+  plain quirk_cmd = true /\ valid quirk_cmd = true /\
+  (exists e, parse_top quirk_cmd [[112]; ex_dd [97; 97]; [118]; ex_dd [98; 98]; [119]] = OErr e
+             /\ e_kind e = EMissingRequiredArgument /\ e_arg e = [121]) /\
+  (exists m, parse_top quirk_cmd [[112]; ex_dd [97; 97]; [122]; ex_dd [98; 98]; [119]] = OOk m).
+Proof.
+  split; [vm_compute; reflexivity|]. split; [vm_compute; reflexivity|]. split.
+  - eexists. split; [vm_compute; reflexivity|]. split; reflexivity.
+  - eexists. vm_compute. reflexivity.
+Qed.
